@@ -29,11 +29,16 @@ structure FrameCfg where
   typeMask : UInt8
   typeCompress : UInt8
   typeEncrypt : UInt8
+  /-- `dataMaxSize + dataLenSize`: size of the buffer a sealed frame is opened into -/
+  unsealedDataSize : Nat := 32772
 
-/-- snappy as a parameter -/
+/-- snappy as a parameter; the secretbox of sealed frames as an ideal primitive keyed by the number of frames opened so far
+(`openBox k p = some x` only for a payload sealed for the k-th receive nonce); `announced` = snappy.DecodedLen -/
 structure Codec where
   enc : Bytes → Bytes
   dec : Bytes → Option Bytes
+  openBox : Nat → Bytes → Option Bytes := fun _ _ => none
+  announced : Bytes → Nat := fun _ => 0
 
 def be32 (n : Nat) : Bytes :=
   [UInt8.ofNat (n / 16777216), UInt8.ofNat (n / 65536), UInt8.ofNat (n / 256), UInt8.ofNat n]
@@ -68,6 +73,8 @@ structure Reader where
   recvBuffer : Bytes := []
   /-- bytes the transport still holds (in order) -/
   wire : Bytes := []
+  /-- sealed frames opened so far: the receive nonce is `recvNonce₀ + 2 * recvCount` (incr2Nonce after every open) -/
+  recvCount : Nat := 0
 deriving Repr
 
 inductive RErr | eof | type | length | short | decode | decrypt | chunklen
@@ -95,10 +102,24 @@ def read (cfg : FrameCfg) (cd : Codec) (r : Reader) (n : Nat) : Reader × Except
             | none => ({ r with wire := rest' }, .error .decode)
             | some frame =>
               if frame.length > cfg.dataMaxSize then ({ r with wire := rest' }, .error .chunklen)
-              else ({ recvBuffer := frame.drop n, wire := rest' }, .ok (frame.take n))
+              else ({ r with recvBuffer := frame.drop n, wire := rest' }, .ok (frame.take n))
           else
-            -- a sealed frame: the model has no key, opening fails (ideal secretbox)
-            ({ r with wire := rest' }, .error .decrypt)
+            -- a sealed frame (the PEER chose the type): opened with the current receive nonce into a zeroed buffer of
+            -- `unsealedDataSize` bytes; a plaintext that does not fit leaves the buffer untouched (the result of Open is dropped)
+            match cd.openBox r.recvCount raw with
+            | none => ({ r with wire := rest' }, .error .decrypt)
+            | some plain =>
+              let buf := if plain.length ≤ cfg.unsealedDataSize
+                         then plain ++ List.replicate (cfg.unsealedDataSize - plain.length) 0
+                         else List.replicate cfg.unsealedDataSize 0
+              let chunkLength := match buf with
+                | c1 :: c2 :: c3 :: c4 :: _ => be32dec c1 c2 c3 c4
+                | _ => 0
+              -- incr2Nonce happens before the length test
+              if chunkLength > cfg.dataMaxSize then ({ r with wire := rest', recvCount := r.recvCount + 1 }, .error .chunklen)
+              else
+                let chunk := (buf.drop 4).take chunkLength
+                ({ recvBuffer := chunk.drop n, wire := rest', recvCount := r.recvCount + 1 }, .ok (chunk.take n))
     | _ => ({ r with wire := [] }, .error .eof)   -- fewer than headerSize bytes: io.ReadFull fails
 
 /-- a sequence of reads with buffer sizes `ns`: bytes returned so far (in order) and the first error -/
@@ -108,6 +129,41 @@ def readMany (cfg : FrameCfg) (cd : Codec) : Reader → List Nat → Reader × B
     match read cfg cd r n with
     | (r', .error e) => (r', [], some e)
     | (r', .ok b) => let (r'', out, e) := readMany cfg cd r' ns; (r'', b ++ out, e)
+
+/-- what `Read` allocates on behalf of the frame at the head of the wire BEFORE it has checked the chunk length:
+`snappy.Decode(nil, rawData)` makes a buffer of the length the payload ANNOUNCES -/
+def readAlloc (cfg : FrameCfg) (cd : Codec) (r : Reader) : Nat :=
+  if !r.recvBuffer.isEmpty then 0
+  else match r.wire with
+    | h0 :: b1 :: b2 :: b3 :: b4 :: rest =>
+      let len := be32dec b1 b2 b3 b4
+      if (h0 &&& cfg.versionMask) != cfg.version00 || (h0 &&& cfg.typeMask) != cfg.typeCompress then 0
+      else if len > cfg.frameCapacity - cfg.headerSize || rest.length < len then 0
+      else cd.announced (rest.take len)
+    | _ => 0
+
+/-- `Write` on a transport that accepts `k` more frames and then fails: (bytes on the wire, n) -/
+def writeUpTo (cfg : FrameCfg) (cd : Codec) (k : Nat) (data : Bytes) : Bytes × Nat × Bool :=
+  let cs := chunks cfg.dataMaxSize data
+  if cs.length ≤ k then write cfg cd data
+  else (((cs.take k).map (frameOf cfg cd)).flatten, ((cs.take k).map List.length).sum, false)
+
+/-! ### nonces (`incrNonce`, `incr2Nonce`, `genNonces`) -/
+
+/-- `incrNonce` on the byte list least-significant byte first: `nonce[i]++; if nonce[i] != 0 return` from the last byte -/
+def incrNonceRev : List UInt8 → List UInt8
+  | [] => []
+  | b :: bs => if b + 1 != 0 then (b + 1) :: bs else 0 :: incrNonceRev bs
+
+/-- big-endian increment with wrap-around -/
+def incrNonce (n : Bytes) : Bytes := (incrNonceRev n.reverse).reverse
+
+def incr2Nonce (n : Bytes) : Bytes := incrNonce (incrNonce n)
+
+/-- value of a byte list, least significant first -/
+def valRev : List UInt8 → Nat
+  | [] => 0
+  | b :: bs => b.toNat + 256 * valRev bs
 
 /-- snappy.MaxEncodedLen -/
 def maxEncodedLen (n : Nat) : Nat := 32 + n + n / 6
@@ -139,6 +195,20 @@ structure Sender where
 def Sender.send (s : Sender) (c : Chan) (m : Bytes) : Sender × Bool :=
   if m.isEmpty || !s.known c then (s, false)
   else ({ s with chans := upd s.chans c { s.chans c with queue := (s.chans c).queue ++ [m] } }, true)
+
+/-- `MConnection.TrySend` / `Channel.trySendBytes`: like `send`, but a full queue (`qcap` = SendQueueCapacity) refuses at once -/
+def Sender.trySend (s : Sender) (qcap : Nat) (c : Chan) (m : Bytes) : Sender × Bool :=
+  if m.isEmpty || !s.known c then (s, false)
+  else if (s.chans c).queue.length ≥ qcap then (s, false)
+  else ({ s with chans := upd s.chans c { s.chans c with queue := (s.chans c).queue ++ [m] } }, true)
+
+/-- `sendQueueSize`: incremented when a message is queued, decremented when its LAST fragment has been cut -/
+def Sender.queueSize (s : Sender) (c : Chan) : Nat :=
+  (s.chans c).queue.length + (if (s.chans c).sending.isEmpty then 0 else 1)
+
+/-- `MConnection.CanSend` (a heuristic: compares with the DEFAULT capacity, whatever the channel's own capacity is) -/
+def Sender.canSend (s : Sender) (dfltCap : Nat) (c : Chan) : Bool :=
+  s.known c && decide (s.queueSize c < dfltCap)
 
 /-- `Channel.isSendPending` -/
 def isSendPending (sc : SChan) : Bool × SChan :=
@@ -172,7 +242,7 @@ structure Receiver where
   cap : Chan → Nat
   recving : Chan → Bytes
 
-inductive MErr | unknownch | capacity | desync
+inductive MErr | unknownch | capacity | desync | pongTimeout | handlerPanic
 deriving Repr, DecidableEq
 
 /-- `recvRoutine` for one PacketMsg + `Channel.recvPacketMsg`.  A packet whose encoding exceeds the size limit is
@@ -197,6 +267,22 @@ def recvAll : Receiver → List Packet → Receiver × List (Chan × Bytes) × O
     | .ok (r', d) =>
       let (r'', ds, e) := recvAll r' ps
       (r'', (match d with | some x => x :: ds | none => ds), e)
+
+/-- the ping / pong discipline as far as the property needs it: a ping that is answered within `PongTimeout` leaves the
+connection alone; an unanswered one ends it with exactly one `pong timeout` error (timers themselves are not modelled) -/
+def pongVerdict (answered : Bool) : Option MErr := if answered then none else some .pongTimeout
+
+/-- the receiver whose `onReceive` handler panics on the delivery with index `panicAt`: `_recover` turns the panic into ONE
+error, the connection stops, the panicking delivery and everything behind it is not delivered -/
+def recvAllH (panicAt : Option Nat) : Receiver → List Packet → Nat → List (Chan × Bytes) × Option MErr
+  | _, [], _ => ([], none)
+  | r, p :: ps, k =>
+    match recvPacket r p with
+    | .error e => ([], some e)
+    | .ok (r', none) => recvAllH panicAt r' ps k
+    | .ok (r', some d) =>
+      if panicAt == some k then ([], some .handlerPanic)
+      else let (ds, e) := recvAllH panicAt r' ps (k + 1); (d :: ds, e)
 
 /-- messages delivered on channel `c`, in order -/
 def delsOf (ds : List (Chan × Bytes)) (c : Chan) : List Bytes := (ds.filter (fun d => d.1 == c)).map (·.2)
@@ -319,5 +405,16 @@ def SwitchState.step (s : SwitchState) : SwOp → SwitchState
   | .drop a => { s with peers := s.peers.filter (fun p => p.authKey != a) }
 
 def SwitchState.run (s : SwitchState) (ops : List SwOp) : SwitchState := ops.foldl SwitchState.step s
+
+/-- the node ID a reactor sees as the sender of a message that arrived on the connection authenticated as `auth`
+(`createMConnection`'s onReceive hands the reactor the peer object built in `addPeer`) -/
+def SwitchState.senderOf (s : SwitchState) (auth : Key) : Option NodeId :=
+  (s.peers.find? (fun p => p.authKey == auth)).map (·.id)
+
+/-- `peer.Send` / `peer.TrySend` towards the connection authenticated as `auth`: refused for a peer that is gone
+(`!IsRunning`), for a channel the peer did not advertise in its NodeInfo (`hasChannel`), for a channel no reactor
+registered, and for the empty message (`MConnection.Send`) -/
+def SwitchState.peerSend (s : SwitchState) (advertised registered : List Nat) (auth : Key) (ch len : Nat) : Bool :=
+  (s.peers.any (fun p => p.authKey == auth)) && advertised.contains ch && registered.contains ch && decide (0 < len)
 
 end Model.Conn
